@@ -396,6 +396,60 @@ def dtype_case(task):
     return out
 
 
+def layout_case(task):
+    """The value at a point does not depend on how the points are arranged
+    in the arrays: the same 64 positions shuffled inside their (4, 4, 4)
+    arrays (no longer a meshgrid) give the shuffled values, for every
+    function of (t, x, y, z) of the module."""
+    import inspect
+    name, ti = task
+    m = mod(name)
+    off = SPECS[name].get('offset', 0.0)
+    X, Y, Z = lattice(off)
+    t = times_of(name)[ti]
+    perm = np.random.RandomState(5).permutation(X.size)
+    Xp, Yp, Zp = (a.ravel()[perm].reshape(a.shape) for a in (X, Y, Z))
+    out = {'task': [name, ti], 'bad': [], 'checks': 0, 'maxres': {}}
+    for fn, f in sorted(vars(m).items()):
+        if not callable(f) or fn.startswith('_'):
+            continue
+        try:
+            pars = list(inspect.signature(f).parameters)
+        except (TypeError, ValueError):
+            continue
+        if pars[:4] != ['t', 'x', 'y', 'z']:
+            continue
+        try:
+            with quiet():
+                v0 = f(t, X, Y, Z)
+                v1 = f(t, Xp, Yp, Zp)
+            if isinstance(v0, dict):
+                keys = sorted(v0)
+                v0, v1 = [v0[k] for k in keys], [v1[k] for k in keys]
+            elif not isinstance(v0, (list, tuple)):
+                v0, v1 = [v0], [v1]
+            for a, b in zip(v0, v1):
+                a, b = np.asarray(a, float), np.asarray(b, float)
+                if a.shape[-3:] != X.shape:
+                    continue          # not a field on the points
+                out['checks'] += 1
+                lead = a.shape[:-3]
+                ap = a.reshape(lead + (-1,))[..., perm].reshape(a.shape)
+                sc = max(float(np.abs(a).max()), 1e-300)
+                if b.shape != a.shape or not (
+                        np.abs(b - ap).max() <= 1e-12 * sc):
+                    out['bad'].append(
+                        (f'{fn}:point-layout',
+                         float(np.abs(b - ap).max() / sc)
+                         if b.shape == a.shape else 'shape'))
+                    break
+        except Exception:     # noqa: BLE001
+            import traceback
+            out['bad'].append((f'{fn}:point-layout:raised',
+                               traceback.format_exc()[-300:]))
+    return out
+
+
 def icpert_case(task):
     """ICPertFLRW: first-order construction on EdS."""
     from aurel.core import AurelCore
@@ -474,6 +528,14 @@ def main(tier):
             run.violation(f"C17:{t[0]}:{b[0]}",
                           f"{t[0]} time index {t[1]}: {b}"[:500],
                           {'module': t[0], 'time_index': t[1], 'dtype': 1})
+    lres = runner.pmap(layout_case, tasks)
+    for t, r in zip(tasks, lres):
+        run.seen(('layout',) + t)
+        run.count('checks', r['checks'])
+        for b in r['bad']:
+            run.violation(f"C17:{t[0]}:{b[0]}",
+                          f"{t[0]} time index {t[1]}: {b}"[:500],
+                          {'module': t[0], 'time_index': t[1], 'layout': 1})
     for t, r in zip(('outside', 'inside'), runner.pmap(
             schw_expansion_case, [('outside',), ('inside',)], workers=2)):
         run.count('checks', r['checks'])
@@ -524,7 +586,8 @@ def replay(rec):
         print(r)
         return 1 if r['bad'] else 0
     if 'module' in c:
-        fn = dtype_case if c.get('dtype') else module_case
+        fn = dtype_case if c.get('dtype') else (
+            layout_case if c.get('layout') else module_case)
         r = fn((c['module'], c['time_index']))
         print(r)
         return 1 if r['bad'] else 0
